@@ -162,6 +162,10 @@ def build(repo=None, want=('whole',), verbose=True):
             print('[frontend] built IR + facts for %d units in %.1fs (key %s)' % (len(cmds), time.time() - t0, key), file=sys.stderr)
     else:
         os.utime(done)
+        try:
+            os.utime(os.path.join(cdir, 'DONE'), None)
+        except OSError:
+            pass
         if verbose:
             print('[frontend] cache hit %s' % key, file=sys.stderr)
     return {'dir': cdir, 'key': key, 'units': json.load(open(os.path.join(cdir, 'units.json'))),
@@ -180,8 +184,10 @@ def _prune(keep=6):
             elif os.path.isdir(p) and d.startswith('build-') and time.time() - os.path.getmtime(p) > 3600:
                 shutil.rmtree(p, ignore_errors=True)
         ents.sort(reverse=True)
-        for _, p in ents[keep:]:
-            shutil.rmtree(p, ignore_errors=True)
+        for mt, p in ents[keep:]:
+            # never remove an entry a concurrent run may still be reading (entries are refreshed on every cache hit)
+            if time.time() - mt > 1800:
+                shutil.rmtree(p, ignore_errors=True)
     except OSError:
         pass
 
